@@ -135,6 +135,7 @@ class World:
         self.timeline = []       # [(mono_time, callable)] events applied during sleep
         # access bookkeeping
         self.acc = 0
+        self.observer = None     # callable(k, op, path) invoked on every access
         self.log = []
         self.hooks = {}          # access index -> [callable]
         self.faults = {}         # access index -> errno (deny just that access)
@@ -180,6 +181,8 @@ class World:
         for h in self.hooks.pop(k, ()):  # kernel events placed before access k
             h()
         self.log.append((k, op, path))
+        if self.observer is not None:
+            self.observer(k, op, path)
         e = self.faults.get(k)
         if e is not None:
             raise oserr(e, path)
@@ -1089,7 +1092,8 @@ def sim_open_factory(w):
         buf = io.BufferedReader(raw, bufsize)
         if "b" in mode:
             return buf
-        return io.TextIOWrapper(buf, encoding=encoding or "utf-8", errors=errors)
+        return io.TextIOWrapper(buf, encoding=encoding or "utf-8", errors=errors,
+                                newline=kw.get("newline"))
     return sim_open
 
 
